@@ -1,50 +1,243 @@
-(* Parser/Depth_proofs.v — PROOFS about Parser/Depth.v *)
+(* Parser/Depth_proofs.v — PROOFS about Parser/Depth.v: soundness of the depth budget (AST depth and
+   recursion depth of every accepted input are bounded by the budget, for all token streams) *)
 From Coq Require Import List NArith Bool Lia.
 From NDB Require Import Parser.Depth.
 Import ListNotations.
 Open Scope N_scope.
 
-(* With a guard, the recursion depth is bounded by a constant for ALL token streams. *)
-Lemma guarded_bounded_mut : forall fuel limit,
-  (forall tight d ts, d <= limit + 1 -> hw_of (go fuel (Some limit) tight d ts) <= limit + 1) /\
-  (forall d ts hw, d <= limit -> hw <= limit + 1 -> hw_of (loop fuel (Some limit) d ts hw) <= limit + 1).
+Definition deep_of (r : res) (d : N) : N := match r with Ok _ s _ _ => deep s | _ => d end.
+
+Lemma push_down_some : forall b s n s', push_down (Some b) s n = Some s' ->
+  dp s' = dp s /\ deep s' = deep s + n /\ deep s' <= b.
 Proof.
-  induction fuel as [|f IH]; intros limit; split; intros; cbn [go loop hw_of]; try lia.
-  - destruct (IH limit) as [IHgo IHloop].
-    unfold over. destruct (N.ltb limit d) eqn:E; cbn [hw_of]; [lia|].
-    apply N.ltb_ge in E.
-    destruct ts as [|[] t]; cbn [hw_of]; try lia.
-    + destruct tight; cbn [hw_of]; [lia|]. apply IHloop; lia.
-    + pose proof (IHgo false (N.succ d) t ltac:(lia)) as G.
-      destruct (go f (Some limit) false (N.succ d) t) as [rest hw|hw|]; cbn [hw_of] in *; try lia.
-      destruct rest as [|[] t']; cbn [hw_of]; try lia.
-      destruct tight; cbn [hw_of]; [lia|]. apply IHloop; lia.
-    + pose proof (IHgo true (N.succ d) t ltac:(lia)) as G.
-      destruct (go f (Some limit) true (N.succ d) t) as [rest hw|hw|]; cbn [hw_of] in *; try lia.
-      destruct tight; cbn [hw_of]; [lia|]. apply IHloop; lia.
-  - destruct (IH limit) as [IHgo IHloop].
-    destruct ts as [|[] t]; cbn [hw_of]; try lia.
-    pose proof (IHgo true (N.succ d) t ltac:(lia)) as G.
-    destruct (go f (Some limit) true (N.succ d) t) as [rest hw'|hw'|]; cbn [hw_of] in *; try lia.
-    apply IHloop; lia.
+  intros b s n s' H. unfold push_down, over in H. destruct (N.ltb b (deep s + n)) eqn:E; [discriminate|].
+  injection H as <-. cbn. apply N.ltb_ge in E. auto.
 Qed.
 
-Theorem guarded_depth_bounded : forall limit ts,
-  start_depth <= limit + 1 -> hw_of (depth_reached (Some limit) ts) <= limit + 1.
-Proof. intros. unfold depth_reached. apply guarded_bounded_mut. assumption. Qed.
+(* soundness of the accounting: the AST below an accepted production is no deeper than what `deep`
+   recorded, and `deep` never exceeds the budget *)
+Definition sound (b : N) (s : pst) (r : res) : Prop :=
+  match r with
+  | Ok _ s' e _ => dp s' = dp s /\ deep s <= deep s' /\ deep s' <= b /\ dp s + adepth e <= deep s'
+  | _ => True
+  end.
 
-(* Without a guard the depth follows the nesting of the input: the probe of DESIGN §8 *)
-Lemma unguarded_paren_2000 : depth_reached None (family 0 2000) = Ok [] 2002.
-Proof. vm_compute. reflexivity. Qed.
-Lemma unguarded_neg_3000 : depth_reached None (family 3 3000) = Ok [] 3002.
-Proof. vm_compute. reflexivity. Qed.
-(* ... while a left-deep operator chain does not recurse in the parser at all *)
-Lemma chain_is_flat : depth_reached None (TAtom :: concat (repeat [TBin; TAtom] 1000)) = Ok [] 3.
-Proof. vm_compute. reflexivity. Qed.
+Lemma postfix_sound : forall b ts s e hw d0,
+  deep s <= b -> d0 + adepth e <= deep s ->
+  match postfix (Some b) s ts e hw with
+  | Ok _ s' e' _ => dp s' = dp s /\ deep s <= deep s' /\ deep s' <= b /\ d0 + adepth e' <= deep s'
+  | _ => True
+  end.
+Proof.
+  induction ts as [|t ts IH]; intros s e hw d0 Hb He; cbn [postfix].
+  - repeat split; auto; lia.
+  - destruct t; try solve [repeat split; auto; lia].
+    destruct (push_down (Some b) s 1) as [s'|] eqn:P; [|exact I].
+    apply push_down_some in P. destruct P as (P1 & P2 & P3).
+    specialize (IH s' (AUn e) hw d0 P3). cbn [adepth] in IH.
+    destruct (postfix (Some b) s' ts (AUn e) hw); auto.
+    destruct IH as (A & B & C & D); [lia|]. repeat split; lia.
+Qed.
 
-(* a guarded parser accepts shallow input unchanged and rejects deep input *)
-Lemma guard_examples :
-  depth_reached (Some 256) (family 0 100) = Ok [] 102 /\
-  rejected (depth_reached (Some 256) (family 0 2000)) = true /\
-  hw_of (depth_reached (Some 256) (family 0 2000)) = 257.
+Lemma go_S : forall ce f b tight s ts rec, go ce (S f) b tight s ts rec =
+      if over b (dp s + ce) then Reject rec else
+      let s1 := mkSt (dp s + ce) (dp s + ce) in
+      let rec1 := N.succ rec in
+      let head :=
+        match ts with
+        | TAtom :: t => postfix b s1 t ALeaf rec1
+        | TPre :: t =>
+            match go ce f b true s1 t rec1 with
+            | Ok rest s2 e hw => Ok rest s2 (AUn e) hw
+            | r => r
+            end
+        | TOpen :: t =>
+            match go ce f b false s1 t rec1 with
+            | Ok (TClose :: t') s2 e hw => postfix b s2 t' (AUn e) hw
+            | Ok _ _ _ hw => Reject hw
+            | r => r
+            end
+        | _ => Reject rec1
+        end in
+      let body :=
+        match head with
+        | Ok rest s2 e hw => if tight then head else loop ce f b s2 rest e hw rec1
+        | r => r
+        end in
+      match body with
+      | Ok rest s2 e hw => Ok rest (mkSt (dp s) (N.max (deep s2) (deep s))) e hw
+      | r => r
+      end.
+Proof. reflexivity. Qed.
+
+Lemma loop_S : forall ce f b s ts lhs hw rec, loop ce (S f) b s ts lhs hw rec =
+      match ts with
+      | TBin :: t =>
+          match go ce f b true s t rec with
+          | Ok rest s2 rhs hw' =>
+              match push_down b s2 1 with
+              | Some s3 => loop ce f b s3 rest (ABin lhs rhs) (N.max hw hw') rec
+              | None => Reject (N.max hw hw')
+              end
+          | Reject hw' => Reject (N.max hw hw')
+          | OutOfFuel => OutOfFuel
+          end
+      | _ => Ok ts s lhs hw
+      end.
+Proof. reflexivity. Qed.
+
+Lemma sound_mut : forall ce, 1 <= ce -> forall fuel b,
+  (forall tight s ts rec, deep s <= b -> sound b s (go ce fuel (Some b) tight s ts rec)) /\
+  (forall s ts lhs hw rec d0, deep s <= b -> d0 <= dp s -> d0 + adepth lhs <= deep s ->
+     match loop ce fuel (Some b) s ts lhs hw rec with
+     | Ok _ s' e _ => dp s' = dp s /\ deep s <= deep s' /\ deep s' <= b /\ d0 + adepth e <= deep s'
+     | _ => True
+     end).
+Proof.
+  intros ce Hce. induction fuel as [|f IH]; intros b; split; intros; [exact I | exact I | rewrite go_S | rewrite loop_S].
+  - (* go *)
+    destruct (IH b) as [IHgo IHloop].
+    unfold over. destruct (N.ltb b (dp s + ce)) eqn:E; [exact I|]. apply N.ltb_ge in E.
+    cbv zeta. set (s1 := mkSt (dp s + ce) (dp s + ce)).
+    assert (Hs1 : deep s1 <= b) by (cbn; lia).
+    (* the head: a state s2 and an expression e with dp s + adepth e <= deep s2 *)
+    pose (head := match ts with
+        | TAtom :: t => postfix (Some b) s1 t ALeaf (N.succ rec)
+        | TPre :: t => match go ce f (Some b) true s1 t (N.succ rec) with
+                       | Ok rest s2 e hw => Ok rest s2 (AUn e) hw | r => r end
+        | TOpen :: t => match go ce f (Some b) false s1 t (N.succ rec) with
+                        | Ok (TClose :: t') s2 e hw => postfix (Some b) s2 t' (AUn e) hw
+                        | Ok _ _ _ hw => Reject hw | r => r end
+        | _ => Reject (N.succ rec) end).
+    fold head.
+    assert (Hhead : match head with
+      | Ok _ s2 e _ => dp s2 = dp s1 /\ deep s1 <= deep s2 /\ deep s2 <= b /\ dp s + adepth e <= deep s2
+      | _ => True end).
+    { unfold head. destruct ts as [|[] t]; auto.
+      - apply (postfix_sound b t s1 ALeaf (N.succ rec) (dp s)); auto. cbn. lia.
+      - pose proof (IHgo false s1 t (N.succ rec) Hs1) as G.
+        destruct (go ce f (Some b) false s1 t (N.succ rec)) as [rest s2 e hw|hw|]; auto.
+        cbn [sound] in G. destruct G as (G1 & G2 & G3 & G4).
+        destruct rest as [|[] t']; auto.
+        pose proof (postfix_sound b t' s2 (AUn e) hw (dp s) G3) as P. cbn [adepth] in P.
+        destruct (postfix (Some b) s2 t' (AUn e) hw); auto.
+        destruct P as (P1 & P2 & P3 & P4); [cbn in G4; lia|]. repeat split; lia.
+      - pose proof (IHgo true s1 t (N.succ rec) Hs1) as G.
+        destruct (go ce f (Some b) true s1 t (N.succ rec)) as [rest s2 e hw|hw|]; auto.
+        cbn [sound] in G. destruct G as (G1 & G2 & G3 & G4). cbn [adepth]. cbn in G4. repeat split; auto; lia. }
+    destruct head as [rest s2 e hw|hw|]; auto.
+    destruct Hhead as (H1 & H2 & H3 & H4). unfold s1 in *. cbn [dp deep] in *.
+    destruct tight.
+    + cbn [sound dp deep]. cbn in H2. repeat split; lia.
+    + pose proof (IHloop s2 rest e hw (N.succ rec) (dp s) H3 ltac:(lia) H4) as L.
+      destruct (loop ce f (Some b) s2 rest e hw (N.succ rec)) as [rest' s3 e' hw'|hw'|]; auto.
+      cbn [sound dp deep]. destruct L as (L1 & L2 & L3 & L4). repeat split; lia.
+  - (* loop *)
+    destruct (IH b) as [IHgo IHloop].
+    destruct ts as [|[] t]; try solve [repeat split; auto; lia].
+    pose proof (IHgo true s t rec H) as G.
+    destruct (go ce f (Some b) true s t rec) as [rest s2 rhs hw'|hw'|]; auto.
+    cbn [sound] in G. destruct G as (G1 & G2 & G3 & G4).
+    destruct (push_down (Some b) s2 1) as [s3|] eqn:P; auto.
+    apply push_down_some in P. destruct P as (P1 & P2 & P3).
+    pose proof (IHloop s3 rest (ABin lhs rhs) (N.max hw hw') rec d0 P3 ltac:(lia)) as L. cbn [adepth] in L.
+    destruct (loop ce f (Some b) s3 rest (ABin lhs rhs) (N.max hw hw') rec); auto.
+    destruct L as (L1 & L2 & L3 & L4); [lia|]. repeat split; lia.
+Qed.
+
+(* ---------- the recursion depth of an accepted or rejected parse is bounded by the budget ---------- *)
+Definition hwinv (ce b : N) (s : pst) (r : res) : Prop :=
+  match r with
+  | Ok _ s' _ hw => dp s' = dp s /\ ce * hw <= b
+  | Reject hw => ce * hw <= b
+  | OutOfFuel => True
+  end.
+
+Lemma postfix_hw : forall ce b ts s e hw, ce * hw <= b -> hwinv ce b s (postfix (Some b) s ts e hw).
+Proof.
+  induction ts as [|t ts IH]; intros s e hw H; cbn [postfix hwinv]; auto.
+  destruct t; cbn [hwinv]; auto.
+  destruct (push_down (Some b) s 1) as [s'|] eqn:P; cbn [hwinv]; auto.
+  apply push_down_some in P. destruct P as (P1 & _ & _).
+  specialize (IH s' (AUn e) hw H). destruct (postfix (Some b) s' ts (AUn e) hw); cbn [hwinv] in *; auto.
+  destruct IH. split; auto. congruence.
+Qed.
+
+Lemma hw_mut : forall ce fuel b,
+  (forall tight s ts rec, ce * rec <= dp s -> dp s <= b -> hwinv ce b s (go ce fuel (Some b) tight s ts rec)) /\
+  (forall s ts lhs hw rec, ce * rec <= dp s -> dp s <= b -> ce * hw <= b ->
+     hwinv ce b s (loop ce fuel (Some b) s ts lhs hw rec)).
+Proof.
+  intros ce. induction fuel as [|f IH]; intros b; split; intros; [exact I | exact I | rewrite go_S | rewrite loop_S].
+  - destruct (IH b) as [IHgo IHloop].
+    unfold over. destruct (N.ltb b (dp s + ce)) eqn:E; [cbn [hwinv]; lia|]. apply N.ltb_ge in E.
+    cbv zeta. set (s1 := mkSt (dp s + ce) (dp s + ce)).
+    assert (R1 : ce * N.succ rec <= dp s1) by (cbn; lia).
+    assert (B1 : dp s1 <= b) by (cbn; lia).
+    pose (head := match ts with
+        | TAtom :: t => postfix (Some b) s1 t ALeaf (N.succ rec)
+        | TPre :: t => match go ce f (Some b) true s1 t (N.succ rec) with
+                       | Ok rest s2 e hw => Ok rest s2 (AUn e) hw | r => r end
+        | TOpen :: t => match go ce f (Some b) false s1 t (N.succ rec) with
+                        | Ok (TClose :: t') s2 e hw => postfix (Some b) s2 t' (AUn e) hw
+                        | Ok _ _ _ hw => Reject hw | r => r end
+        | _ => Reject (N.succ rec) end).
+    fold head.
+    assert (Hhead : hwinv ce b s1 head).
+    { unfold head. destruct ts as [|[] t]; cbn [hwinv]; try lia.
+      - apply postfix_hw. lia.
+      - pose proof (IHgo false s1 t (N.succ rec) R1 B1) as G.
+        destruct (go ce f (Some b) false s1 t (N.succ rec)) as [rest s2 e hw|hw|]; cbn [hwinv] in *; auto.
+        destruct G as [G1 G2]. destruct rest as [|[] t']; cbn [hwinv]; auto.
+        pose proof (postfix_hw ce b t' s2 (AUn e) hw G2) as P.
+        destruct (postfix (Some b) s2 t' (AUn e) hw); cbn [hwinv] in *; auto. destruct P. split; auto. congruence.
+      - pose proof (IHgo true s1 t (N.succ rec) R1 B1) as G.
+        destruct (go ce f (Some b) true s1 t (N.succ rec)) as [rest s2 e hw|hw|]; cbn [hwinv] in *; auto. }
+    destruct head as [rest s2 e hw|hw|]; cbn [hwinv] in *; auto.
+    destruct Hhead as [H1' H2'].
+    destruct tight; cbn [hwinv dp]; auto.
+    pose proof (IHloop s2 rest e hw (N.succ rec) ltac:(lia) ltac:(lia) H2') as L.
+    destruct (loop ce f (Some b) s2 rest e hw (N.succ rec)); cbn [hwinv dp] in *; auto. destruct L; auto.
+  - destruct (IH b) as [IHgo IHloop].
+    destruct ts as [|[] t]; cbn [hwinv]; auto.
+    pose proof (IHgo true s t rec H H0) as G.
+    destruct (go ce f (Some b) true s t rec) as [rest s2 rhs hw'|hw'|]; cbn [hwinv] in *; try lia.
+    destruct G as [G1 G2].
+    destruct (push_down (Some b) s2 1) as [s3|] eqn:P; cbn [hwinv]; try lia.
+    apply push_down_some in P. destruct P as (P1 & _ & _).
+    pose proof (IHloop s3 rest (ABin lhs rhs) (N.max hw hw') rec ltac:(lia) ltac:(lia) ltac:(lia)) as L.
+    destruct (loop ce f (Some b) s3 rest (ABin lhs rhs) (N.max hw hw') rec); cbn [hwinv] in *; auto.
+    destruct L. split; auto. lia.
+Qed.
+
+(* ---------- top level: RETURN <expr> ---------- *)
+Theorem accepted_ast_depth_le_budget : forall ce cq b ts rest s e hw, 1 <= ce ->
+  parse_return ce cq (Some b) ts = Ok rest s e hw -> adepth e <= b.
+Proof.
+  intros ce cq b ts rest s e hw Hce H. unfold parse_return, over in H.
+  destruct (N.ltb b cq) eqn:E; [discriminate|]. apply N.ltb_ge in E.
+  pose proof (proj1 (sound_mut ce Hce (3 * length ts + 3) b) false (mkSt cq cq) ts 1 ltac:(cbn; lia)) as S.
+  destruct (go ce (3 * length ts + 3) (Some b) false (mkSt cq cq) ts 1) as [rest' s' e' hw'|hw'|]; try discriminate.
+  cbn [sound dp deep] in S. destruct S as (_ & _ & S3 & S4).
+  destruct (push_down (Some b) s' 1); [|discriminate]. injection H as _ _ <- _. lia.
+Qed.
+
+Theorem recursion_depth_le_budget : forall ce cq b ts, ce <= cq ->
+  ce * hw_of (parse_return ce cq (Some b) ts) <= b.
+Proof.
+  intros ce cq b ts Hc. unfold parse_return, over.
+  destruct (N.ltb b cq) eqn:E; [cbn; lia|]. apply N.ltb_ge in E.
+  pose proof (proj1 (hw_mut ce (3 * length ts + 3) b) false (mkSt cq cq) ts 1 ltac:(cbn; lia) ltac:(cbn; lia)) as G.
+  destruct (go ce (3 * length ts + 3) (Some b) false (mkSt cq cq) ts 1) as [rest' s' e' hw'|hw'|]; cbn [hwinv hw_of] in *; try lia.
+  destruct (push_down (Some b) s' 1); cbn [hw_of]; lia.
+Qed.
+
+(* ---------- the parser before the repair (no budget): regression witnesses ---------- *)
+Lemma unguarded_paren_2000 : hw_of (parse_return 3 6 None (family 0 2000)) = 2002 /\ rejected (parse_return 3 6 None (family 0 2000)) = false.
+Proof. vm_compute. auto. Qed.
+Lemma unguarded_chain_ast_depth :
+  match parse_return 3 6 None (TAtom :: concat (repeat [TBin; TAtom] 3000)) with
+  | Ok _ _ e hw => adepth e = 3001 /\ hw = 3
+  | _ => False
+  end.
 Proof. vm_compute. auto. Qed.
